@@ -7,8 +7,9 @@
 
    holds_seq / holds_stress evaluate the property on what the real code was OBSERVED to do, with the
    same projections (acc, wire, po, cv, wire_wellformed) the theorems in Properties/C14.v are about.
-   The model (Model.PlayQueue: impl_write = today's two steps) is compared exactly on sequential
-   histories, where it is deterministic. *)
+   The model (Model.PlayQueue: impl_write = today's one-critical-section write) is compared exactly on
+   sequential histories, where it is deterministic.  Finding C14-1 (two-step write) is fixed: a lost or
+   reordered packet, a crash or a hang in a stress scenario is a violation again. *)
 From Coq Require Import List NArith Bool Arith.
 From Verif Require Import Base.Hex Base.VarInt Base.Verdict Model.PlayQueue.
 Import ListNotations.
@@ -276,34 +277,6 @@ Definition holds_stress (ids : idtab) (pss : list (list pkt)) (ress : list (list
   | _, _ => false
   end.
 
-(* what today's two-step write can produce (finding 1): play-only packets may be parked in an orphaned
-   queue and never sent, the unguarded deque may crash the process or be reported by the race detector;
-   everything else still holds *)
-Definition impl_allows (ids : idtab) (pss : list (list pkt)) (ress : list (list wres))
-           (w : bytes) (closed : bool) (cr : crash) (rq ro : N) : bool :=
-  (ro =? 0)%N &&
-  match cr with
-  | CrQueue | CrHangQueue => true
-  | CrNone =>
-      match parse_wire ids w with
-      | Some fs =>
-          let evs := map (fun f => EWire (fst (snd f)) (snd (snd f))) fs in
-          let wp := wire evs in
-          same_shape pss ress && wire_wellformed evs
-          && nodupb wp && forallb (fun p => inb p (concat pss)) wp
-          && forallb (fun ps => is_subseq (owned ps (po wp)) (po ps) && is_subseq (owned ps (cv wp)) (cv ps)
-                                && order_ok ps (owned ps wp)) pss
-          && (closed || all_ok ress)
-          && (closed ||   (* an accepted config-valid packet is never lost *)
-              forallb (fun ps => pkts_eqb (owned ps (cv wp)) (cv ps)) pss)
-      | None => false
-      end
-  | _ => false
-  end.
-
-(* trigger class of finding 1: play-only packets written concurrently with state changes *)
-Definition trigger1 (pss : list (list pkt)) : bool := existsb is_po (concat pss).
-
 Definition judge (c : case) : verdict :=
   match c with
   | Seq ids ops o_res o_len o_closed o_wire o_eof =>
@@ -324,6 +297,5 @@ Definition judge (c : case) : verdict :=
   | Stress ids pss o_ress o_wire o_closed o_crash rq ro =>
       if negb (nodupb (concat pss)) then VMismatch
       else if holds_stress ids pss o_ress o_wire o_closed o_crash rq ro then VOk
-      else if trigger1 pss && impl_allows ids pss o_ress o_wire o_closed o_crash rq ro then VKnown 1
       else VViolation
   end.
